@@ -141,8 +141,12 @@ def check_c16(prop, tier, seed):
             if tier == "thorough" and n in ("pocp-1-gen", "pocp-2-gen", "huge-gen") and s >= seed + 20:
                 continue
             jobs.append(dict(src=("bench_gen", n, s)))
+        if tier == "quick" and n in ("small-gen", "small-gen-rgoal", "medium-gen", "large-gen"):
+            # the small parameter sets are cheap: more seeds
+            for s in range(seed + 3, seed + (16 if n != "large-gen" else 9)):
+                jobs.append(dict(src=("bench_gen", n, s)))
     rng = random.Random(seed)
-    for i in range(12 if tier == "quick" else 300):
+    for i in range(24 if tier == "quick" else 300):
         jobs.append(dict(src=("gen", random_gen_params(rng, i + seed * 1000), "rand%d" % i)))
     for n in corpus.names():
         jobs.append(dict(src=("corpus_dict", n), crosscheck=True))
